@@ -203,11 +203,22 @@ def run(prop: str, tier: str, seed: int) -> int:
             new.append(f)
     # replay counter-models of new failures on the real code
     if new:
-        wits = [f["witness"] for f in new if f.get("witness") and "tree" in f["witness"]]
+        # one witness per distinct (configuration, clause, shape): at most 30 native replays, 20 s each
+        wits, seen_w = [], set()
+        for f in new:
+            if f.get("witness") and "tree" in f["witness"]:
+                sig = (f["cfg"], f["clause"], json.dumps(_small_shape(f["shape"]), sort_keys=True))
+                if sig not in seen_w and len(wits) < 30:
+                    seen_w.add(sig)
+                    wits.append(f["witness"])
         replays = {}
         if wits:
-            p = run_venv("rules_tierb.py", ["replay-stdin"], stdin=json.dumps(wits), timeout=600)
-            if p.returncode == 0:
+            try:
+                p = run_venv("rules_tierb.py", ["replay-stdin"], stdin=json.dumps(wits), timeout=900)
+            except Exception as e:  # noqa: BLE001  (a replay that does not come back never masks the verdict)
+                p = None
+                R.say(f"NOTE native replay of counter-models did not finish: {type(e).__name__}")
+            if p is not None and p.returncode == 0:
                 try:
                     outs = json.loads(p.stdout)
                     for w, o in zip(wits, outs):
@@ -267,8 +278,12 @@ def run(prop: str, tier: str, seed: int) -> int:
     validated_neg = 0
     mismatches = []
     if conc:
-        p = run_venv("rules_tierb.py", ["replay-stdin"], stdin=json.dumps(conc), timeout=1200)
-        if p.returncode == 0:
+        try:
+            p = run_venv("rules_tierb.py", ["replay-stdin"], stdin=json.dumps(conc), timeout=2400)
+        except Exception as e:  # noqa: BLE001
+            p = None
+            R.engine_errors.append(f"concolic replay did not finish: {type(e).__name__}")
+        if p is not None and p.returncode == 0:
             try:
                 for w, o in zip(conc, json.loads(p.stdout)):
                     if not o.get("realised"):
